@@ -52,6 +52,12 @@ func verifC09Run(rt *rapid.T, c *kit.Case) {
 	}
 	defer fx.Close()
 
+	// rollbacks issued while pruning is blocked are the trigger of both known findings; they are allowed
+	// in about 30 % of the histories only, so that most histories are checked without any exclusion
+	allowBlockedRollback := rapid.IntRange(0, 9).Draw(rt, "allowBlockedRollback") < 3
+	if allowBlockedRollback {
+		c.Class("blocked-rollback-allowed")
+	}
 	qsize := rapid.IntRange(0, 3).Draw(rt, "pruningQueueSize")
 	s := verifSBNewSim(verifSBRapidReporter{rt: rt, c: c}, fx, verifSBNewGen(rt, 3, 8), qsize, !smallBuffer)
 
@@ -96,7 +102,7 @@ func verifC09Run(rt *rapid.T, c *kit.Case) {
 			s.doFinalize()
 		},
 		"rollback": func(t *rapid.T) {
-			if s.unfinalized() == 0 {
+			if s.unfinalized() == 0 || (s.blocked() && !allowBlockedRollback) {
 				t.Skip()
 			}
 			s.doRollback()
@@ -119,6 +125,9 @@ func verifC09Run(rt *rapid.T, c *kit.Case) {
 	c.Class(fmt.Sprintf("queue-size-%d", qsize))
 	if s.nRollback > 0 {
 		c.Class("has-rollback")
+	}
+	if s.rollbackWhileBlocked {
+		c.Class("has-rollback-while-blocked")
 	}
 	if s.nRollback > 0 && s.nPruneBlocked > 0 && s.nDataTrieRemoval > 0 && s.nFinalizeAfter > 0 {
 		c.NonTrivial(s.history())
@@ -189,14 +198,65 @@ func verifC09Scripted(t *testing.T, blocked bool, reapply bool) {
 	s.invariant()
 }
 
+// verifC09ScriptedStaleCancel is the hand-minimised history of the known finding
+// verifSBKeyStaleCancel (11 events after genesis, pruning queue size 0):
+//
+//	genesis G (a0, a1, a2 with a data trie); block -> X; finalize (G pruned, X = last final root)
+//	EnterPruningBufferingMode; block -> S; rollback S->X  (CancelPrune(X, OldRoot) is buffered)
+//	ExitPruningBufferingMode
+//	block that removes a2 -> T        (Commit re-creates the X|Old entry: root path, leaf and data trie of a2)
+//	block -> U; rollback U->T         (PruneTrie with pruning not blocked executes the buffer: the stale
+//	                                   cancel evicts the fresh X|Old entry)
+//	block that creates a2 again, identical -> V; rollback V->T
+//	                                  (PruneTrie(V, NewRoot) finds nobody claiming the leaf / data trie of
+//	                                   a2 and deletes them)
+//	=> X, the last final root, cannot be rebuilt any more
+func verifC09ScriptedStaleCancel(t *testing.T, blocked bool) {
+	fx, err := verifSBNewFixture(verifSBConfig{EwlCacheSize: 100, PruningBufferLen: 1000, MaxTrieLevelInMem: 5, MaxSnapshots: 2})
+	if err != nil {
+		t.Fatalf("fixture: %v", err)
+	}
+	defer fx.Close()
+	s := verifSBNewSim(verifSBPlainReporter{t: t, pid: "C09"}, fx, verifC09ScriptedGen(), 0, true)
+	a2 := &verifSBAcc{Balance: 6, Storage: map[string]string{"a": "v1", "b": "v2"}}
+	s.execBlock(verifSBBlock{
+		verifC09Tx(verifSBOp{Kind: "touch", Addr: 0, DBal: 100}),
+		verifC09Tx(verifSBOp{Kind: "create", Addr: 1, Content: &verifSBAcc{Balance: 5, Storage: map[string]string{"a": "v1"}}}),
+		verifC09Tx(verifSBOp{Kind: "create", Addr: 2, Content: a2.clone()}),
+	}, "genesis")
+	s.execBlock(verifSBBlock{verifC09Bump()}, "block") // X
+	s.doFinalize()
+	s.invariant()
+	if blocked {
+		s.doEnterBlocking()
+	}
+	s.execBlock(verifSBBlock{verifC09Bump()}, "block") // S
+	s.doRollback()
+	if blocked {
+		s.doExitBlocking()
+	}
+	s.invariant()
+	s.execBlock(verifSBBlock{verifC09Bump(), verifC09Tx(verifSBOp{Kind: "remove", Addr: 2})}, "block") // T
+	s.execBlock(verifSBBlock{verifC09Bump()}, "block")                                                   // U
+	s.doRollback()
+	s.invariant()
+	s.execBlock(verifSBBlock{verifC09Bump(), verifC09Tx(verifSBOp{Kind: "create", Addr: 2, Content: a2.clone()})}, "block") // V
+	s.doRollback()
+	s.invariant()
+}
+
 func TestVerifC09_Regress(t *testing.T) {
 	kit.Silence()
 	// 1. rollback with pruning not blocked: nothing is lost, nothing is left behind
 	verifC09Scripted(t, false, false)
 	verifC09Scripted(t, false, true)
-	// 2. the same histories with the rollback issued while pruning is blocked: safety must hold; the
-	// nodes of the rolled-back root stay in the database for ever (suspicion 22 of DESIGN.md, class
-	// verifSBKeyBlockedRollback)
+	verifC09ScriptedStaleCancel(t, false)
+	// 2. the same histories with the rollback issued while pruning is blocked: the nodes of the
+	// rolled-back root stay in the database for ever (suspicion 22 of DESIGN.md, class
+	// verifSBKeyBlockedRollback) ...
 	verifC09Scripted(t, true, false)
 	verifC09Scripted(t, true, true)
+	// ... and the deferred CancelPrune(prev, OldRoot) lets a later rollback delete nodes of the last
+	// final root (class verifSBKeyStaleCancel)
+	verifC09ScriptedStaleCancel(t, true)
 }
